@@ -1,13 +1,287 @@
-//! C10: generators and executor (see DESIGN.md section 4, C10).
+//! C10: concurrent sessions on real threads.  Each case runs one workload with N worker threads against one
+//! store (file-backed WAL or in-memory shared cache, several pool sizes), logs what every committed transaction
+//! read and wrote (with a global sequence number taken right after commit returned) and what concurrent readers
+//! saw, and hands that *history* to the Lean checker (`History.accept`, proved sound) through `model_input`.
+//! The harness judges the same history independently (oracle): no lost update, invariant-preserving snapshots,
+//! uniqueness, no deadlock (watchdog), no panic, a failed call has no effect.
 use crate::rng::Rng;
+use crate::store_case::{cleanup, provision};
+use askar_storage::any::AnyBackend;
+use askar_storage::backend::{Backend, BackendSession, OrderBy};
+use askar_storage::entry::{EntryKind, EntryOperation};
+use askar_storage::future::block_on;
 use serde_json::{json, Value};
+use std::collections::BTreeMap;
+use std::sync::atomic::{AtomicU64, Ordering};
+use std::sync::{Arc, Mutex};
 
-/// generated cases for this property (each a JSON object with "kind": "c10…")
-pub fn gen(_r: &mut Rng, _thorough: bool, _count: Option<usize>) -> Vec<Value> {
-    vec![]
+pub fn gen(r: &mut Rng, thorough: bool, count: Option<usize>) -> Vec<Value> {
+    let n = count.unwrap_or(if thorough { 600 } else { 36 });
+    let mut out = vec![];
+    for id in 0..n {
+        let workload = ["counter", "transfer", "tokens", "counter", "transfer", "profiles"][id % 6];
+        let file = r.chance(3, 4);
+        out.push(json!({"id": id, "kind": "c10", "workload": workload, "file": file,
+            "pool": *r.pick(&[1u64, 2, 4, 8]), "tasks": 2 + r.below(if thorough { 10 } else { 5 }), "readers": r.below(3),
+            "iters": 4 + r.below(if thorough { 30 } else { 10 }), "keys": 1 + r.below(4), "busy_ms": *r.pick(&[50u64, 500, 3000]),
+            "seed": r.next() % 1_000_000}));
+    }
+    out
 }
 
-/// run one case against the real code; returns {"out": …, "oracle": […], "feat": {…}}
-pub fn exec(_case: &Value, _tag: &str) -> Value {
-    json!({"out": {"err": "not implemented"}})
+#[derive(Clone, Debug)]
+struct TxnRec { reads: Vec<(String, i64)>, writes: Vec<(String, i64)>, cseq: u64 }
+
+struct Shared {
+    seq: AtomicU64,
+    txns: Mutex<Vec<TxnRec>>,
+    snaps: Mutex<Vec<(u64, u64, Vec<(String, i64)>)>>, // (seq before, seq after, values)
+    fails: AtomicU64,
+    oracle: Mutex<Vec<Value>>,
+    feat: Mutex<BTreeMap<String, u64>>,
+}
+
+impl Shared {
+    fn bump(&self, k: &str) { *self.feat.lock().unwrap().entry(k.to_string()).or_insert(0) += 1; }
+    fn fail(&self, v: Value) { let mut o = self.oracle.lock().unwrap(); if o.len() < 5 { o.push(v); } }
+}
+
+fn parse(v: &[u8]) -> i64 { std::str::from_utf8(v).ok().and_then(|s| s.parse().ok()).unwrap_or(i64::MIN) }
+
+/// one read-modify-write transaction over `keys`: new value = f(old values); returns Ok(()) when committed
+async fn rmw(b: &AnyBackend, sh: &Shared, keys: &[String], delta: &[i64]) -> bool {
+    // every transaction also increments the version record "ver": the version it read is its exact position in
+    // the serial order (no reliance on wall-clock ordering of log entries)
+    let mut keys = keys.to_vec(); keys.push("ver".to_string());
+    let mut delta = delta.to_vec(); delta.push(1);
+    let (keys, delta) = (&keys[..], &delta[..]);
+    let mut sess = match b.session(None, true) { Ok(s) => s, Err(_) => return false };
+    let mut reads = vec![];
+    for k in keys {
+        match sess.fetch(EntryKind::Item, "acct", k, true).await {
+            Ok(Some(e)) => reads.push((k.clone(), parse(e.value.as_ref()))),
+            Ok(None) => { sh.fail(json!({"sig": "record-vanished", "key": k})); sess.close(false).await.ok(); return false; }
+            Err(_) => { sh.bump("txn-aborted-on-read"); sess.close(false).await.ok(); return false; }
+        }
+    }
+    let mut writes = vec![];
+    for ((k, old), d) in reads.iter().zip(delta.iter()) {
+        let nv = old + d;
+        match sess.update(EntryKind::Item, EntryOperation::Replace, "acct", k, Some(nv.to_string().as_bytes()), None, None).await {
+            Ok(()) => writes.push((k.clone(), nv)),
+            Err(_) => { sh.bump("txn-aborted-on-write"); sess.close(false).await.ok(); return false; }
+        }
+    }
+    match sess.close(true).await {
+        Ok(()) => {
+            let cseq = sh.seq.fetch_add(1, Ordering::SeqCst);
+            sh.txns.lock().unwrap().push(TxnRec { reads, writes, cseq });
+            sh.bump("txn-committed");
+            true
+        }
+        Err(_) => { sh.bump("commit-failed"); false }
+    }
+}
+
+async fn snapshot(b: &AnyBackend, sh: &Shared, scan: bool) {
+    let before = sh.seq.load(Ordering::SeqCst);
+    let rows: Result<Vec<(String, i64)>, _> = if scan {
+        match b.scan(None, Some(EntryKind::Item), Some("acct".to_string()), None, None, None, Some(OrderBy::Id), false).await {
+            Ok(mut s) => {
+                let mut all = vec![];
+                let mut err = None;
+                loop {
+                    match s.fetch_next().await {
+                        Ok(Some(rows)) => all.extend(rows.iter().map(|e| (e.name.clone(), parse(e.value.as_ref())))),
+                        Ok(None) => break,
+                        Err(e) => { err = Some(e); break; }
+                    }
+                }
+                match err { Some(e) => Err(e), None => Ok(all) }
+            }
+            Err(e) => Err(e),
+        }
+    } else {
+        match b.session(None, false) {
+            Ok(mut sess) => {
+                let r = sess.fetch_all(Some(EntryKind::Item), Some("acct"), None, None, Some(OrderBy::Id), false, false).await
+                    .map(|rows| rows.iter().map(|e| (e.name.clone(), parse(e.value.as_ref()))).collect());
+                sess.close(false).await.ok();
+                r
+            }
+            Err(e) => Err(e),
+        }
+    };
+    let after = sh.seq.load(Ordering::SeqCst);
+    match rows {
+        Ok(v) => { sh.snaps.lock().unwrap().push((before, after, v)); sh.bump(if scan { "snapshot-scan" } else { "snapshot-fetch_all" }); }
+        Err(_) => sh.bump("snapshot-failed"),
+    }
+}
+
+pub fn exec(case: &Value, tag: &str) -> Value {
+    let workload = case["workload"].as_str().unwrap_or("counter").to_string();
+    let file = case["file"].as_bool().unwrap_or(true);
+    let pool = case["pool"].as_u64().unwrap_or(4);
+    let tasks = case["tasks"].as_u64().unwrap_or(4) as usize;
+    let readers = case["readers"].as_u64().unwrap_or(1) as usize;
+    let iters = case["iters"].as_u64().unwrap_or(10) as usize;
+    let nkeys = match workload.as_str() { "transfer" => 34 + case["keys"].as_u64().unwrap_or(2) as usize * 3, _ => case["keys"].as_u64().unwrap_or(2) as usize };
+    let params = format!("busy_timeout={}&max_connections={}", case["busy_ms"].as_u64().unwrap_or(500), pool);
+    let (backend, path) = provision(file, "default", &params, &format!("c10-{}", tag));
+    let mut keys: Vec<String> = (0..nkeys).map(|i| format!("k{:03}", i)).collect();
+    let init_val: i64 = if workload == "transfer" { 100 } else { 0 };
+    let sh = Arc::new(Shared { seq: AtomicU64::new(0), txns: Mutex::new(vec![]), snaps: Mutex::new(vec![]), fails: AtomicU64::new(0),
+                               oracle: Mutex::new(vec![]), feat: Mutex::new(BTreeMap::new()) });
+    block_on(async {
+        let mut s = backend.session(None, false).unwrap();
+        if workload == "counter" || workload == "transfer" {
+            for k in &keys { s.update(EntryKind::Item, EntryOperation::Insert, "acct", k, Some(init_val.to_string().as_bytes()), None, None).await.expect("init"); }
+            s.update(EntryKind::Item, EntryOperation::Insert, "acct", "ver", Some(b"0"), None, None).await.expect("init ver");
+        }
+        s.close(false).await.ok();
+    });
+    let token_ok: Arc<Mutex<BTreeMap<String, u64>>> = Arc::new(Mutex::new(BTreeMap::new()));
+    let (done_tx, done_rx) = std::sync::mpsc::channel::<()>();
+    let total_threads = tasks + readers;
+    for t in 0..total_threads {
+        let (backend, sh, keys, workload, done_tx, token_ok) = (backend.clone(), sh.clone(), keys.clone(), workload.clone(), done_tx.clone(), token_ok.clone());
+        let seed = case["seed"].as_u64().unwrap_or(1) * 1000 + t as u64;
+        std::thread::spawn(move || {
+            let res = std::panic::catch_unwind(std::panic::AssertUnwindSafe(|| {
+                let mut r = Rng::new(seed);
+                block_on(async {
+                    if t >= tasks {
+                        // reader
+                        for i in 0..(iters * 2) { snapshot(&backend, &sh, i % 2 == 1).await; }
+                        return;
+                    }
+                    for i in 0..iters {
+                        match workload.as_str() {
+                            "counter" => { let k = r.pick(&keys).clone(); if !rmw(&backend, &sh, &[k], &[1]).await { sh.fails.fetch_add(1, Ordering::SeqCst); } }
+                            "transfer" => {
+                                let a = r.below(keys.len()); let mut b = r.below(keys.len()); if b == a { b = (a + 1) % keys.len(); }
+                                let x = 1 + r.below(20) as i64;
+                                if !rmw(&backend, &sh, &[keys[a].clone(), keys[b].clone()], &[-x, x]).await { sh.fails.fetch_add(1, Ordering::SeqCst); }
+                            }
+                            "tokens" => {
+                                // plain sessions racing to insert the same names: exactly one wins per name
+                                let name = format!("tok{}", i);
+                                if let Ok(mut s) = backend.session(None, false) {
+                                    match s.update(EntryKind::Item, EntryOperation::Insert, "tok", &name, Some(format!("{}", t).as_bytes()), None, None).await {
+                                        Ok(()) => { *token_ok.lock().unwrap().entry(name).or_insert(0) += 1; sh.bump("token-won"); }
+                                        Err(e) => sh.bump(&format!("token-err:{}", crate::canon::err_name(e.kind()))),
+                                    }
+                                    s.close(false).await.ok();
+                                }
+                            }
+                            _ => {
+                                // profiles: create / use / remove concurrently
+                                let p = format!("p{}", r.below(3));
+                                match r.below(4) {
+                                    0 => { backend.create_profile(Some(p)).await.ok(); }
+                                    1 => { backend.remove_profile(p).await.ok(); }
+                                    _ => {
+                                        if let Ok(mut s) = backend.session(Some(p), r.chance(1, 2)) {
+                                            let _ = s.update(EntryKind::Item, EntryOperation::Insert, "c", &format!("n{}", r.below(5)), Some(b"v"), None, None).await;
+                                            let _ = s.count(None, None, None).await;
+                                            s.close(true).await.ok();
+                                        }
+                                    }
+                                }
+                                sh.bump("profile-op");
+                            }
+                        }
+                    }
+                });
+            }));
+            if let Err(p) = res {
+                let msg = p.downcast_ref::<String>().cloned().or_else(|| p.downcast_ref::<&str>().map(|s| s.to_string())).unwrap_or_default();
+                sh.fail(json!({"sig": format!("panic: {}", msg.chars().take(100).collect::<String>())}));
+            }
+            done_tx.send(()).ok();
+        });
+    }
+    drop(done_tx);
+    // watchdog
+    let deadline = std::time::Instant::now() + std::time::Duration::from_secs(120);
+    let mut finished = 0;
+    while finished < total_threads {
+        let left = deadline.saturating_duration_since(std::time::Instant::now());
+        match done_rx.recv_timeout(left) { Ok(()) => finished += 1, Err(_) => break }
+    }
+    if finished < total_threads {
+        sh.fail(json!({"sig": "deadlock-or-stall", "finished": finished, "threads": total_threads}));
+        return json!({"out": {"err": "stalled"}, "oracle": sh.oracle.lock().unwrap().clone(), "feat": sh.feat.lock().unwrap().clone()});
+    }
+    // final state
+    let mut final_vals: Vec<(String, i64)> = vec![];
+    let mut tokens_present: Vec<String> = vec![];
+    block_on(async {
+        let mut s = backend.session(None, false).unwrap();
+        if let Ok(rows) = s.fetch_all(Some(EntryKind::Item), Some("acct"), None, None, Some(OrderBy::Id), false, false).await {
+            final_vals = rows.iter().map(|e| (e.name.clone(), parse(e.value.as_ref()))).collect();
+        }
+        if let Ok(rows) = s.fetch_all(Some(EntryKind::Item), Some("tok"), None, None, Some(OrderBy::Id), false, false).await {
+            tokens_present = rows.iter().map(|e| e.name.clone()).collect();
+        }
+        s.close(false).await.ok();
+        backend.close().await.ok();
+    });
+    cleanup(&path);
+    let mut txns = sh.txns.lock().unwrap().clone();
+    // serial order = the version each transaction read
+    txns.sort_by_key(|t| (t.reads.iter().find(|(k, _)| k == "ver").map(|x| x.1).unwrap_or(i64::MAX), t.cseq));
+    let snaps = sh.snaps.lock().unwrap().clone();
+
+    // ---- the harness's own verdicts (independent of the Lean checker)
+    let mut state: BTreeMap<String, i64> = keys.iter().map(|k| (k.clone(), init_val)).collect();
+    state.insert("ver".to_string(), 0);
+    if workload == "tokens" || workload == "profiles" { state.clear(); }
+    let init_pairs: Vec<(String, i64)> = state.iter().map(|(k, v)| (k.clone(), *v)).collect();
+    let mut serial_ok = true;
+    let mut prefix_states = vec![state.clone()];
+    for t in &txns {
+        for (k, v) in &t.reads { if state.get(k) != Some(v) { serial_ok = false; } }
+        for (k, v) in &t.writes { state.insert(k.clone(), *v); }
+        prefix_states.push(state.clone());
+    }
+    let final_map: BTreeMap<String, i64> = final_vals.iter().cloned().collect();
+    let final_ok = (workload != "counter" && workload != "transfer") || final_map == state;
+    let mut snaps_ok = true;
+    for (_, _, vals) in &snaps {
+        let m: BTreeMap<String, i64> = vals.iter().cloned().collect();
+        // the snapshot's version says exactly which prefix state it must be
+        let ver = m.get("ver").copied().unwrap_or(-1);
+        if (workload == "counter" || workload == "transfer") && prefix_states.get(ver as usize) != Some(&m) { snaps_ok = false; }
+    }
+    if !serial_ok { sh.fail(json!({"sig": format!("{}:not-serializable-in-commit-order", workload)})); }
+    if !final_ok { sh.fail(json!({"sig": format!("{}:final-state-differs-from-committed-effects(lost-or-phantom-update)", workload), "final": final_vals, "expected": state})); }
+    if !snaps_ok { sh.fail(json!({"sig": format!("{}:reader-saw-a-state-that-is-no-prefix-state", workload)})); }
+    if workload == "transfer" {
+        let total = init_val * keys.len() as i64;
+        for (_, _, vals) in &snaps { if vals.iter().filter(|x| x.0 != "ver").map(|x| x.1).sum::<i64>() != total || vals.len() != keys.len() + 1 { sh.fail(json!({"sig": "transfer:snapshot-breaks-sum-invariant", "snapshot_sum": vals.iter().map(|x| x.1).sum::<i64>(), "rows": vals.len()})); break; } }
+    }
+    if workload == "tokens" {
+        let wins = token_ok.lock().unwrap().clone();
+        for (name, n) in &wins { if *n != 1 { sh.fail(json!({"sig": "tokens:insert-succeeded-more-than-once", "name": name, "n": n})); } }
+        let present: std::collections::BTreeSet<String> = tokens_present.iter().cloned().collect();
+        let won: std::collections::BTreeSet<String> = wins.keys().cloned().collect();
+        if present != won { sh.fail(json!({"sig": "tokens:presence-differs-from-acknowledged-inserts"})); }
+    }
+    let pairs = |v: &Vec<(String, i64)>| -> Value { Value::Array(v.iter().map(|(k, x)| json!([k, x])).collect()) };
+    let history = json!({
+        "init": pairs(&init_pairs),
+        "txns": txns.iter().map(|t| json!({"reads": pairs(&t.reads), "writes": pairs(&t.writes)})).collect::<Vec<_>>(),
+        "snaps": snaps.iter().map(|(_, _, v)| pairs(v)).collect::<Vec<_>>(),
+        "final": pairs(&final_vals),
+        "judge": workload == "counter" || workload == "transfer",
+    });
+    let mut feat = sh.feat.lock().unwrap().clone();
+    feat.insert("failed-attempts".into(), sh.fails.load(Ordering::SeqCst));
+    feat.insert(format!("workload:{}", workload), 1);
+    feat.insert(format!("pool:{}", pool), 1);
+    feat.insert(if file { "store:file".into() } else { "store:memory".into() }, 1);
+    json!({"out": {"serializable": serial_ok, "final_ok": final_ok, "snapshots_ok": snaps_ok},
+           "oracle": sh.oracle.lock().unwrap().clone(), "feat": feat, "model_input": {"history": history}})
 }
